@@ -381,24 +381,41 @@ Qed.
 Lemma nth_error_here {A} (pre : list A) c rest : nth_error (pre ++ c :: rest) (length pre) = Some c.
 Proof. rewrite nth_error_app2 by lia. rewrite Nat.sub_diag. reflexivity. Qed.
 
-Lemma pns_spec l i : position_non_space l = Some i -> forall j, (j < i)%nat -> nth_error l j = Some SP.
+(** optional whitespace: SP or HTAB *)
+Definition is_ows_at (l : bytes) (j : nat) : Prop := exists c, nth_error l j = Some c /\ ows c = true.
+
+Lemma pns_spec l i : position_non_ows l = Some i -> forall j, (j < i)%nat -> is_ows_at l j.
 Proof.
-  revert i; induction l as [|c r IH]; intros i H j Hj; cbn [position_non_space] in H; [discriminate|].
-  destruct (N.eqb_spec c SP) as [->|Hne].
-  - destruct (position_non_space r) as [k|] eqn:E; [|discriminate]. cbn in H. inversion H; subst.
-    destruct j as [|j]; [reflexivity|]. cbn [nth_error]. apply (IH k eq_refl). lia.
+  revert i; induction l as [|c r IH]; intros i H j Hj; cbn [position_non_ows] in H; [discriminate|].
+  destruct (ows c) eqn:Eo.
+  - destruct (position_non_ows r) as [k|] eqn:E; [|discriminate]. cbn in H. inversion H; subst.
+    destruct j as [|j]; [exists c; split; [reflexivity|exact Eo]|]. unfold is_ows_at. cbn [nth_error]. apply (IH k eq_refl). lia.
   - inversion H; subst. lia.
 Qed.
 
-Lemma pns_pos c r i : position_non_space (c :: r) = Some i -> c = SP -> (1 <= i)%nat.
+Lemma pns_pos c r i : position_non_ows (c :: r) = Some i -> ows c = true -> (1 <= i)%nat.
 Proof.
-  intros H ->. cbn [position_non_space] in H. rewrite N.eqb_refl in H.
-  destruct (position_non_space r); [|discriminate]. cbn in H. inversion H. lia.
+  intros H Ho. cbn [position_non_ows] in H. rewrite Ho in H.
+  destruct (position_non_ows r); [|discriminate]. cbn in H. inversion H. lia.
+Qed.
+
+Lemma ows_not_cr c : ows c = true -> c <> CR.
+Proof. intros H ->. vm_compute in H. discriminate. Qed.
+Lemma ows_not_lf c : ows c = true -> c <> LF.
+Proof. intros H ->. vm_compute in H. discriminate. Qed.
+
+(** trimming trailing whitespace stays between [value_start] and the untrimmed end *)
+Lemma trim_end_bounds all vs : forall ve, (vs <= ve)%nat -> (vs <= trim_end all vs ve <= ve)%nat.
+Proof.
+  induction ve as [|p IH]; intros H; cbn [trim_end]; [lia|].
+  destruct (Nat.ltb vs (S p)) eqn:E; cbn [andb]; [|lia]. apply Nat.ltb_lt in E.
+  destruct (match nth_error all p with Some c => ows c | None => false end); [|lia].
+  specialize (IH ltac:(lia)). lia.
 Qed.
 
 (** What the loop knows about [value_start] while it is inside a value. *)
 Definition vs_inv (all : bytes) (pos vs : nat) : Prop :=
-  ((vs <= pos)%nat \/ (forall i, (pos <= i < vs)%nat -> nth_error all i = Some SP)) /\
+  ((vs <= pos)%nat \/ (forall i, (pos <= i < vs)%nat -> is_ows_at all i)) /\
   (((1 <= vs)%nat /\ nth_error all (vs - 1) <> Some CR) \/ (vs < pos)%nat).
 
 Lemma vs_inv_step all pos vs : vs_inv all pos vs -> vs_inv all (S pos) vs.
@@ -425,14 +442,14 @@ Proof.
     destruct (N.eqb_spec byte LF) as [Hlf|Hnlf].
     + destruct (slice_get ns ne all) as [raw|]; [|discriminate].
       destruct (header_name raw) as [name|]; [|discriminate].
-      assert (Hve : (vs <= (if prev_is_cr all pos then pos - 1 else pos))%nat
+      assert (Hve0 : (vs <= (if prev_is_cr all pos then pos - 1 else pos))%nat
                     /\ ((if prev_is_cr all pos then pos - 1 else pos) <= length all)%nat).
       { destruct Hinv as [H1 H2].
         assert (Hle : (vs <= pos)%nat).
         { destruct H1 as [H1|H1]; [exact H1|].
           destruct (Nat.le_gt_cases vs pos) as [?|Hgt]; [assumption|].
-          specialize (H1 pos ltac:(lia)). rewrite Hbyte in H1. inversion H1 as [E]. subst byte.
-          unfold LF, SP in E. discriminate. }
+          specialize (H1 pos ltac:(lia)). destruct H1 as [c [H1 Ho]]. rewrite Hbyte in H1. inversion H1 as [E]. subst c byte.
+          exfalso. exact (ows_not_lf _ Ho eq_refl). }
         destruct (prev_is_cr all pos) eqn:Ecr; [|split; lia].
         unfold prev_is_cr in Ecr. destruct pos as [|p]; [discriminate|].
         destruct (nth_error all p) as [c|] eqn:Ep; [|discriminate]. apply N.eqb_eq in Ecr. subst c.
@@ -440,27 +457,30 @@ Proof.
         destruct H2 as [[Hge Hncr2]|Hlt]; [|lia].
         destruct (Nat.eq_dec vs (S p)) as [->|]; [|lia].
         replace (S p - 1)%nat with p in Hncr2 by lia. congruence. }
+      assert (Hve : (vs <= trim_end all vs (if prev_is_cr all pos then pos - 1 else pos))%nat
+                    /\ (trim_end all vs (if prev_is_cr all pos then pos - 1 else pos) <= length all)%nat).
+      { destruct Hve0 as [Ha Hb]. pose proof (trim_end_bounds all vs _ Ha). lia. }
       destruct Hve as [Hv1 Hv2]. rewrite (slice_chk_ok _ _ _ Hv1 Hv2).
       destruct (hvalue_ok _); [|discriminate].
       eapply IH; eauto. discriminate.
     + eapply IH; eauto. intros _. apply vs_inv_step. exact Hinv.
   - destruct (N.eqb_spec byte COLON) as [Hc|Hnc].
-    + destruct (next_is_space all pos).
+    + destruct (next_is_ows all pos).
       * eapply IH; eauto. discriminate.
       * eapply IH; eauto. intros _. split; [left; lia|left]. split; [lia|].
         replace (S pos - 1)%nat with pos by lia. rewrite Hbyte. subst byte. unfold COLON, CR. intros E; inversion E.
-    + destruct (N.eqb_spec byte SP) as [Hs|Hns].
+    + destruct (ows byte) eqn:Hs.
       * eapply IH; eauto. intros _. unfold value_start_from.
-        destruct (position_non_space (skipn pos all)) as [i|] eqn:Epn.
+        destruct (position_non_ows (skipn pos all)) as [i|] eqn:Epn.
         -- assert (Hsk : skipn pos all = byte :: rest').
            { subst all pos. rewrite skipn_app, skipn_all, Nat.sub_diag. reflexivity. }
            assert (Hi : (1 <= i)%nat) by (rewrite Hsk in Epn; eapply pns_pos; eauto).
-           assert (Hsp : forall j, (j < i)%nat -> nth_error all (pos + j) = Some SP).
-           { intros j Hj. rewrite <- nth_error_skipn_add. eapply pns_spec; eauto. }
+           assert (Hsp : forall j, (j < i)%nat -> is_ows_at all (pos + j)).
+           { intros j Hj. unfold is_ows_at. rewrite <- nth_error_skipn_add. eapply pns_spec; eauto. }
            split.
            ++ right. intros k Hk. replace k with (pos + (k - pos))%nat by lia. apply Hsp. lia.
            ++ left. split; [lia|]. replace (i + pos - 1)%nat with (pos + (i - 1))%nat by lia.
-              rewrite Hsp by lia. unfold SP, CR. intros E; inversion E.
+              destruct (Hsp (i - 1)%nat ltac:(lia)) as [c [Hc Ho]]. rewrite Hc. intros E; inversion E. exact (ows_not_cr _ Ho H0).
         -- split; [left; lia|right; lia].
       * eapply IH; eauto. discriminate.
 Qed.
@@ -484,8 +504,8 @@ Proof.
         destruct (slice_chk _ _ all) as [v| |]; try discriminate.
         destruct (hvalue_ok v); [|discriminate]. eapply IH; [|exact H]; lia.
       * eapply IH; [|exact H]; lia.
-    + destruct (byte =? COLON); [destruct (next_is_space all pos); (eapply IH; [|exact H]; lia)|].
-      destruct (byte =? SP); (eapply IH; [|exact H]; lia).
+    + destruct (byte =? COLON); [destruct (next_is_ows all pos); (eapply IH; [|exact H]; lia)|].
+      destruct (ows byte); (eapply IH; [|exact H]; lia).
 Qed.
 
 Definition scan_ok (all : bytes) (s : scan) : Prop :=
